@@ -1,5 +1,6 @@
 import Qryn.Ingest.Labels
 import Qryn.Ingest.SeriesIndex
+import Qryn.Ingest.LabelPipeline
 /-! Line protocol of the C04 model.
 
     labels  L := `-` | nameHex:valueHex[,nameHex:valueHex…]        (hex as in Qryn.ofHex, `-` = empty)
@@ -14,7 +15,15 @@ import Qryn.Ingest.SeriesIndex
     c04hist loc op…       → per op: `-` (cache reset) | `a<0|1>:rows/rows…` (rows of each chunk, sorted,
                             `date.fp.tp` comma separated, `-` for none), then `T=` the sorted series table
        op := `R` | `P:chunk/chunk…:dropped`, chunk := `<seriesOk><samplesOk>~call+call…`,
-       call := `fp@ts` `t` `tp`[,…], dropped := `n` | `e` | call+call…                                  -/
+       call := `fp@ts` `t` `tp`[,…], dropped := `n` | `e` | call+call…
+    c04pipe decoderType ctxTtl L L → `unknown-decoder` | `none` | `F=L D=docHex`: the list the pipeline of the code
+                            (decoder's sanitising per Gen.LabelPipeline.decoders, then the regenerated order of onEntries)
+                            fingerprints, and the stored document; 1st L = labels the decoder collected, 2nd L = labels
+                            appended after sanitising whose value goes through the name rule (Influx `__name__`)
+    c04valid hex          → `0|1 hex hex`: utf8.Valid, strings.ToValidUTF8(s, U+FFFD), encoding/json's coercion
+    c04trunc hex          → hex of the stored form of a value: ToValidUTF8 of the truncation
+    c04san hex            → hex of the sanitised label name
+    c04key day fp tp      → hex of the 17 bytes maybeAddFp hashes                                        -/
 namespace Driver.C04
 open Qryn Qryn.Fp Qryn.SeriesIndex
 
@@ -115,6 +124,26 @@ def handle : List String → Option String
   | ["c04bounds", loc, f, t] => do
     let l ← loc.toInt?; let a ← f.toInt?; let b ← t.toInt?
     pure s!"{readerLower a} {readerUpper l b}"
+  | ["c04pipe", typ, ttl, pre, post] => do
+    let t ← ttl.toNat?; let a ← parseLabels pre; let b ← parseLabels post
+    pure (match Pipeline.decoderSanitises typ with
+      | none => "unknown-decoder"
+      | some sn =>
+        match Pipeline.onEntriesLabels t (Pipeline.decoderLabels sn a b) with
+        | none => "none"
+        | some (f, d) => "F=" ++ showLabels f ++ " D=" ++ hexOut (encodeLabels d))
+  | ["c04valid", x] => do
+    let b ← parseBytes x
+    pure ((if Ingest.validUTF8 b then "1 " else "0 ") ++ hexOut (Ingest.toValidUTF8 b) ++ " " ++ hexOut (Pipeline.coerceUTF8 b))
+  | ["c04trunc", x] => do
+    let b ← parseBytes x
+    pure (hexOut (Ingest.toValidUTF8 (Ingest.truncValue b)))
+  | ["c04san", x] => do
+    let b ← parseBytes x
+    pure (hexOut (Ingest.sanitizeName b))
+  | ["c04key", d, f, t] => do
+    let dd ← d.toInt?; let ff ← f.toNat?; let tt ← t.toNat?
+    pure (hexOut (Pipeline.keyBytes (BitVec.ofInt 64 dd) (BitVec.ofNat 64 ff) (UInt8.ofNat tt)))
   | "c04hist" :: loc :: ops => do
     let l ← loc.toInt?
     let os ← ops.mapM parseOp
